@@ -25,6 +25,7 @@ type Script struct {
 type Config struct {
 	MaxOps          int
 	ValidRepos      int      // how many well-formed repository names
+	ManyRepos       bool     // a quarter of the universes have six well-formed repository names
 	InvalidRepos    bool     // include malformed repository names in the universe
 	RepoPool        []string // if set, repository names are drawn from this pool
 	Uploads         bool     // chunked upload sessions
@@ -99,6 +100,9 @@ func Gen(cfg Config) func(t *rapid.T) Script {
 		nv := cfg.ValidRepos
 		if nv <= 0 {
 			nv = 3
+		}
+		if cfg.ManyRepos && rapid.IntRange(0, 3).Draw(t, "manyRepos") == 0 {
+			nv = 6
 		}
 		if nv > len(pool) {
 			nv = len(pool)
